@@ -4,15 +4,19 @@ export GOFLAGS=-mod=mod GOPROXY=off GOSUMDB=off GOTOOLCHAIN=local GOWORK=off
 V=$(cd "$(dirname "$0")/.." && pwd)
 one() {
   D=$(readlink -f "$1"); name=$(basename "$(dirname "$(dirname "$D")")")/$(basename "$(dirname "$D")")/$(basename "$D"); case "$D" in */corpus/*|*/seeded/*) name=$(basename "$(dirname "$D")")/$(basename "$D");; esac
-  S=$(mktemp -d /tmp/dvm-XXXXXX)
+  S=$(mktemp -d /tmp/dvm-XXXXXX) || { echo "$name NOSCRATCH"; return; }
+  [ -n "$S" ] && [ -d "$S" ] || { echo "$name NOSCRATCH"; return; }
   rsync -a --exclude .git /repo/ "$S/repo/"
   if ! (cd "$S/repo" && patch -p1 -s --no-backup-if-mismatch < "$D" >/dev/null 2>&1); then echo "$name NOAPPLY"; rm -rf "$S"; return; fi
-  if ! (cd "$S/repo" && go build ./... >/dev/null 2>&1); then echo "$name NOBUILD"; rm -rf "$S"; return; fi
+  if ! (cd "$S/repo" && go build -trimpath ./... >/dev/null 2>&1); then echo "$name NOBUILD"; rm -rf "$S"; return; fi
   fired=$("${DVERIF:-$V/bin/dverif}" scan --repo "$S/repo" 2>/dev/null | awk '$2=="FIRED"{printf " %s",$1}')
   echo "$name FIRED:$fired"
   rm -rf "$S"
 }
 export -f one; export V
 OUT=$1; shift
+# every scratch copy lives in its own directory: -trimpath lets their builds share the Go build cache; should the
+# cache have grown large all the same (sub-agents' test binaries), empty it before adding to it
+if [ "$(du -sm "$(go env GOCACHE)" 2>/dev/null | cut -f1)" -gt 40000 ] 2>/dev/null; then go clean -cache; fi
 printf '%s\n' "$@" | xargs -P ${JOBS:-6} -I{} bash -c 'one {}' > "$OUT"
 sort -o "$OUT" "$OUT"
